@@ -48,6 +48,10 @@ func c11ExprKits() map[string]*ast.Node {
 		// a failing call whose argument is a call of a function that itself makes a call on another line
 		"printf-kind-after-call-argument": ast.Call(ast.Id("printf"), ast.Str("%s|"), ast.Call(ast.Id("c11len"), ast.Str("ab"))),
 		"call-number-after-call-argument": ast.Call(ast.Num("5"), ast.Call(ast.Id("c11len"), ast.Arr(ast.Num("1")))),
+		// a name bound by a match pattern (or a parameter) that holds a non-function and shadows a
+		// function of the program: calling it is calling a non-function
+		"call-match-bound-name-that-shadows-a-function": ast.Match(ast.Num("5"), ast.Case(ast.Call(ast.Id("c11fun")), ast.Id("c11fun"))),
+		"call-parameter-that-shadows-a-function-at-a-site": ast.Call(ast.Id("c11shadow"), ast.Str("not a function")),
 		// a fault anchored at a bare $
 		"dollar-call-null": ast.Method(ast.Mem(ast.Dollar(), "c11none"), "nosuch"),
 	}
@@ -266,6 +270,7 @@ func c11Base(t *rapid.T) *DCase {
 		ast.Func("c11fun", nil, ast.Block(ast.Return(ast.Num("1")))),
 		ast.Func("c11len", []string{"c11v"}, ast.Block(ast.ExprS(ast.Set(ast.Id("c11w"), ast.Method(ast.Id("c11v"), "length"))), ast.Return(ast.Id("c11w")))),
 		ast.Func("c11m", []string{"c11s", "c11p"}, ast.Block(ast.Return(ast.Bin("~", ast.Id("c11s"), ast.Id("c11p"))))),
+		ast.Func("c11shadow", []string{"c11fun"}, ast.Block(ast.Return(ast.Call(ast.Id("c11fun"))))),
 		ast.Rule("BEGIN", nil, ast.Block(ast.Print(ast.Str("start")))),
 	}
 	c.Prog = ast.Prog(append(items, c.Prog.C...)...)
